@@ -320,7 +320,7 @@ func validatorCase0(h *hctx, n, localIdx, pubIdx int, msg []byte, nonce uint64, 
 
 	ses, err := newSession(h, local, ms)
 	if err != nil {
-		h.res.Note("validatorCase: %v", err)
+		h.res.Fatalf("validatorCase: %v", err)
 		return
 	}
 	k, p := ses.sched.NumDataShards(), ses.sched.NumCodingShards()
